@@ -956,6 +956,31 @@ func (e *Enc) collectNames(fr *Frame) {
 			return
 		}
 		if old, ok := fr.names[n]; ok && old != v {
+			// a variable living in a cell (captured by a closure, or address taken): the cell is the
+			// variable, the values loaded from it are not further candidates
+			if al, isAl := old.(*ssa.Alloc); isAl && al.Comment == n {
+				if ld, isLd := v.(*ssa.UnOp); isLd && ld.X == al {
+					return
+				}
+				// a value stored into the cell (assignment) is not a further candidate either
+				stored := false
+				if refs := al.Referrers(); refs != nil {
+					for _, r := range *refs {
+						if st, ok := r.(*ssa.Store); ok && st.Addr == al && st.Val == v {
+							stored = true
+						}
+					}
+				}
+				if stored {
+					return
+				}
+			}
+			if al, isAl := v.(*ssa.Alloc); isAl {
+				if ld, isLd := old.(*ssa.UnOp); isLd && ld.X == al && !fr.ambig[n] {
+					fr.names[n] = v
+					return
+				}
+			}
 			fr.ambig[n] = true
 			return
 		}
